@@ -219,8 +219,12 @@ func c18GenStep(g *Rng, k c18Knobs, i int, tier string) c18Step {
 	}
 	if g.Bool(0.08) {
 		// benign: the certificate is dropped from KeyInfo in flight (KeyInfo is not signed content)
-		op := Pick(g, "keyinfo-none", "keyinfo-keyvalue")
-		st.Wire = append(st.Wire, c18Op{Op: op})
+		op := Pick(g, "keyinfo-none", "keyinfo-keyvalue", "keyinfo-add-cert")
+		if op == "keyinfo-add-cert" {
+			st.Wire = append(st.Wire, c18Op{Op: op, Arg: "4", Val: Pick(g, "after", "before")})
+		} else {
+			st.Wire = append(st.Wire, c18Op{Op: op})
+		}
 		st.Intent = append(st.Intent, "benign:"+op)
 	}
 	st.Resp = &spec
@@ -277,8 +281,14 @@ func c18Defect(g *Rng, k c18Knobs, st *c18Step, s *c18Spec, dim string) {
 			st.Intent = append(st.Intent, "signature:other-untrusted-key")
 		case 4:
 			s.SignKey = 2
-			st.Wire = append(st.Wire, c18Op{Op: "keyinfo-cert", Arg: "0"})
-			st.Intent = append(st.Intent, "signature:untrusted-key-naming-trusted-cert")
+			if g.Bool(0.5) {
+				st.Wire = append(st.Wire, c18Op{Op: "keyinfo-cert", Arg: "0"})
+				st.Intent = append(st.Intent, "signature:untrusted-key-naming-trusted-cert")
+			} else {
+				// the signer's own certificate stays; the trusted certificate rides along in the same KeyInfo
+				st.Wire = append(st.Wire, c18Op{Op: "keyinfo-add-cert", Arg: "0", Val: Pick(g, "after", "before", "own-x509data")})
+				st.Intent = append(st.Intent, "signature:untrusted-key-carrying-trusted-cert-too")
+			}
 		case 5:
 			s.SignKey = 2
 			st.Wire = append(st.Wire, c18Op{Op: Pick(g, "keyinfo-none", "keyinfo-keyvalue")})
@@ -634,6 +644,10 @@ func c18Run(k c18Knobs, st *c18Step) *c18Model {
 			if m.sigDirect == 1 && m.signer >= 0 && m.keyInfo != strings.TrimPrefix(op.Op, "keyinfo-") {
 				m.keyInfo, eff = strings.TrimPrefix(op.Op, "keyinfo-"), true
 			}
+		case "keyinfo-add-cert":
+			if m.sigDirect == 1 && m.signer >= 0 && m.keyInfo == "own" && op.Arg != fmt.Sprint(m.signer) {
+				m.keyInfo, eff = "cert:+"+op.Arg, true
+			}
 		case "keyinfo-cert":
 			if m.sigDirect == 1 && m.signer >= 0 && m.keyInfo == "own" && op.Arg != fmt.Sprint(m.signer) {
 				m.keyInfo, eff = "cert:"+op.Arg, true
@@ -934,6 +948,24 @@ func c18Build(k c18Knobs, st *c18Step, m *c18Model, t0 time.Time) []byte {
 				rk := ki.CreateElement(ki.Space + ":KeyValue").CreateElement(ki.Space + ":RSAKeyValue")
 				rk.CreateElement(ki.Space + ":Modulus").SetText("AQAB")
 				rk.CreateElement(ki.Space + ":Exponent").SetText("AQAB")
+			}
+		case "keyinfo-add-cert":
+			j := 0
+			fmt.Sscan(op.Arg, &j)
+			if c := sig.FindElement("./KeyInfo/X509Data/X509Certificate"); c != nil && j >= 0 && j < len(rsaKeys) {
+				xd := c.Parent()
+				extra := etree.NewElement(c.Space + ":X509Certificate")
+				extra.SetText(rsaKeys[j].CertB64())
+				switch op.Val {
+				case "before":
+					xd.InsertChildAt(c.Index(), extra)
+				case "own-x509data":
+					xd2 := etree.NewElement(xd.Space + ":X509Data")
+					xd2.AddChild(extra)
+					xd.Parent().AddChild(xd2)
+				default:
+					xd.AddChild(extra)
+				}
 			}
 		case "keyinfo-cert":
 			j := 0
